@@ -207,9 +207,28 @@ class Roles:
             return self.dict_values(expr.func.value.id, f, depth, "*")
         if isinstance(expr, ast.Call) and isinstance(expr.func, ast.Name) and expr.func.id in ("list", "tuple", "sorted", "iter", "reversed") and len(expr.args) == 1:
             return self.role(expr.args[0], f, depth + 1)          # a re-packaging of the same node collection
-        if not isinstance(expr, ast.Name):
+        # a traversal variable is a name, or a field of one closure object (`state.last_node`): both are tracked by their text
+        is_field = isinstance(expr, ast.Attribute) and isinstance(expr.value, ast.Name) and expr.value.id not in ("self", "cls")
+        if not isinstance(expr, ast.Name) and not is_field:
             return {("ANY", ast.unparse(expr))}
-        name = expr.id
+        name = ast.unparse(expr)
+        if is_field:
+            out = set()
+            found_def = False
+            for fn in self.outer_funcs(f):
+                for st in ast.walk(fn):
+                    if isinstance(st, ast.Assign) and any(isinstance(t, ast.Attribute) and ast.unparse(t) == name for t in st.targets):
+                        found_def = True
+                        out |= self.role(st.value, self.m.enclosing_function(st) or fn, depth + 1)
+                    elif isinstance(st, ast.Assign) and H.name_id(st.targets[0]) == expr.value.id and isinstance(st.value, ast.Call) and isinstance(st.value.func, ast.Name) \
+                            and st.value.func.id in self.m.classes and not st.value.args:
+                        # the object's construction: the field's declared default (keyword argument or dataclass default)
+                        kwv = [k.value for k in st.value.keywords if k.arg == expr.attr]
+                        dflt = kwv or [b.value for b in self.m.classes[st.value.func.id].body if isinstance(b, ast.AnnAssign) and H.name_id(b.target) == expr.attr and b.value is not None]
+                        if dflt:
+                            found_def = True
+                            out |= self.role(dflt[0], fn, depth + 1)
+            return out if found_def and out else {("ANY", name)}
         out: Set[Tuple[str, str]] = set()
         found_def = False
         for fn in self.outer_funcs(f):
@@ -252,11 +271,12 @@ class Roles:
         out = set()
         qn = fn.name
         cls_methods = [f for q, f in self.m.functions.items() if q.startswith("CPGraph.")]
+        nested_fn = self.m.enclosing_function(fn) is not None
         for g in cls_methods:
             for c in ast.walk(g):
-                if isinstance(c, ast.Call) and isinstance(c.func, ast.Attribute) and c.func.attr == qn and H.is_self_attr(c.func):
+                if isinstance(c, ast.Call) and ((isinstance(c.func, ast.Attribute) and c.func.attr == qn and H.is_self_attr(c.func)) or (nested_fn and isinstance(c.func, ast.Name) and c.func.id == qn)):
                     try:
-                        b = H.bind_call(fn, c)
+                        b = H.bind_call(fn, c, skip_self=not nested_fn)
                     except AnalysisError:
                         continue
                     if pname in b:
@@ -365,7 +385,14 @@ def _sites(db, chk, m):
     chk.ob(rule, "sync edges: a Context Sync waits for the last activity of every stream, a Stream Sync only for the last activity of ITS stream", oksel if len(defs) == 1 else None, m.loc(kf),
            found=[ast.unparse(d) for d in defs], accepted="last_node.values() if name == context_sync else [last_node.get(row.stream)]",
            why="falling back to all streams makes a sync edge leave a kernel the call never waited for (possibly backward in time)")
-    chk.ob(rule, "number of edge creation sites", len(sites) == 8, CP, found=len(sites), accepted=8, why="a new site needs a typing row in the checker's table", nontrivial=False) if len(sites) != 8 else None
+    # every edge type of the table is created somewhere (sites may be merged or split by a refactoring: the count itself is not a rule)
+    seen_types = set()
+    for q, f, c in sites:
+        b = H.bind_call(helper, c)
+        seen_types.add(ast.unparse(b["type"]).split(".")[-1] if "type" in b else "OPERATOR_KERNEL")
+    missing_types = sorted(set(ACCEPT) - seen_types)
+    if missing_types:
+        chk.ob(rule, "every edge type has a creation site", None, CP, found={"missing": missing_types, "sites": len(sites)}, accepted=sorted(ACCEPT))
     chk.floor(rule, 10)
 
 
